@@ -87,7 +87,7 @@ fn parse_avar(s: &str) -> Option<Vec<Vec<(i16, i16)>>> {
     )
 }
 
-fn run(input: &str) -> String {
+pub fn run(input: &str) -> String {
     let parts: Vec<&str> = input.split('|').collect();
     let axes = parse_axes(parts[1]);
     let avar = parse_avar(parts[2]);
@@ -193,7 +193,7 @@ fn gen_map(rng: &mut Rng) -> Vec<(i16, i16)> {
     }
 }
 
-fn gen(rng: &mut Rng) -> String {
+pub fn gen(rng: &mut Rng) -> String {
     let n = match rng.below(10) {
         0 => 0,
         1..=5 => 1,
